@@ -274,7 +274,7 @@ package core
 //@   props C07 C11
 //@   unreachable return 0
 //@   modifies codec.buffer.r, codec.buffer.buf
-//@   requires f != nil && arrhdr(f.RspBody) && value_ok(f.RspBody, 0) && value_end(f.RspBody, 0) == len(f.RspBody) && allbulk(f.RspBody)
+//@   requires f != nil && arrhdr(f.RspBody) && value_unfold(f.RspBody, 0) && value_ok(f.RspBody, 0) && value_end(f.RspBody, 0) == len(f.RspBody) && allbulk(f.RspBody)
 //@   ensures[len] len(result) == arrn(f.RspBody)
 //@   ensures[elems] forall i int :: 0 <= i && i < len(result) ==> bytes_eq(result[i], f.RspBody[elemlo(f.RspBody, i) : elemlo(f.RspBody, i + 1)])
 //@   loop 0
